@@ -445,7 +445,8 @@ def applyFinish (w : World) (i : IId) (r : Fin) : World :=
   let w3 := match w.act I.exec with
     | some A => w2.setAct I.exec (some { A with running := A.running.erase i })
     | none => w2
-  if r == .errTimeout then cancelPendingChildren w3 (w.ne + 1) I.ev else w3
+  let w4 := w3.setStack (w.stack.erase i)
+  if r == .errTimeout then cancelPendingChildren w4 (w.ne + 1) I.ev else w4
 
 /-- `execute_handler` up to its first suspension: the result is marked started, the handler instance (task) is created
     with its deadline, the activation moves the handler from `todo` to `running` -/
@@ -458,7 +459,7 @@ def applySched (w : World) (p : Proc) (i : IId) (b : BId) (e : EId) (k : HId) : 
   let w3 := match w.act p with
     | some A => w2.setAct p (some { A with todo := A.todo.tail, running := A.running ++ [i] })
     | none => w2
-  w3.setNi (w.ni + 1)
+  (w3.setNi (w.ni + 1)).setStack (i :: w.stack)
 
 /-- `process_event` entry, executor side: a run loop acquires the global lock, an awaiting handler hands over the event it took -/
 def peEnter (w : World) (p : Proc) (b : BId) : World :=
